@@ -21,6 +21,8 @@ import (
 // drain happens (after one step or after several) decides how far the reader
 // lags behind the file system.
 
+func readNonblock(fd int, buf []byte) (int, error) { return unix.Read(fd, buf) }
+
 // pump forwards everything the kernel has queued, one read() = one datagram.
 func (s *session) pump(r *rec) bool {
 	buf := make([]byte, 65536)
